@@ -1,21 +1,49 @@
-(* Props/C08g.v — C08, wave 4: the translator-GENERATED ktensor.update (Gen/GenKtensor4.v, regenerated from
-   /repo/pyttb/ktensor.py on every run) computes C08's hand model k_update; the exact round-trip / frame theorems of Props/C08.v
-   (C08_update_all_modes, C08_update_frame) therefore hold for the generated code.  Only statements, `exact`, Print Assumptions. *)
+(* Props/C08g.v — C08, wave 4/5: the translator-GENERATED ktensor.update (Gen/GenKtensor4.v, regenerated from
+   /repo/pyttb/ktensor.py on every run; two passes since /repo b9311d6) IS C08's state machine py_update (Model/C08Update.v) and hence
+   computes the hand model k_update; the exact round-trip / frame theorems of Props/C08.v (C08_update_all_modes, C08_update_frame) and the
+   atomicity theorem of Props/C08i.v (C08_update_rejected_unchanged) therefore hold for the generated code.
+   Only statements, `exact`, Print Assumptions. *)
 From Coq Require Import List ZArith Arith Bool.
-From PV Require Import Base.Index Model.Repr Model.C08Kruskal Np.NpZ Np.NpZ2 Np.NpZ3 Np.NpZ3c Np.NpZ3d Np.NpZ3e Np.NpZ4
+From PV Require Import Base.Index Model.Repr Model.C08Kruskal Model.C08Update Np.NpZ Np.NpZ2 Np.NpZ3 Np.NpZ3c Np.NpZ3d Np.NpZ3e Np.NpZ4
   Model.W4Ktensor Gen.GenKtensor4 Proofs.C08Gen3.
 Import ListNotations.
 Local Open Scope Z_scope.
 
-(* whenever the generated update(modes, data) answers on modes >= -1 (-1 = the weights, k >= 0 = factor k; the generated code
-   itself demands ascending modes, enough data, k < ndims), its result is — weights and every stored entry — the hand model:
+(* the generated update(modes, data) answers Ok EXACTLY on the requests the state machine accepts — with the same weights and stored
+   entries — and raises EXACTLY on those it rejects, where the state machine leaves the receiver as it was (the generated function is
+   functional: a raise loses the state; that the raise happens BEFORE the first assignment is what the second line says).
+   Every ktz record, every list of integers as modes (unsorted, repeated, out of range, negative), every data length *)
+Theorem C08_gen_update_state : forall (self : ktz) (modes data : vec),
+  match ktensor_update self modes data with
+  | Ok k' => py_update 0 modes data (to_K self) = (true, to_K k')
+  | Err => py_update 0 modes data (to_K self) = (false, to_K self)
+  end.
+Proof. exact gen_update_state. Qed.
+Print Assumptions C08_gen_update_state.
+
+(* ... it raises iff the modes are not strictly ascending, or one of them is neither -1 nor a mode, or the data is too short for
+   the blocks named — all decided on the request before anything is stored *)
+Theorem C08_gen_update_rejects_iff : forall (self : ktz) (modes data : vec),
+  ktensor_update self modes data = Err <-> py_strict_asc modes && py_validate (to_K self) modes data = false.
+Proof. exact gen_update_rejects_iff. Qed.
+Print Assumptions C08_gen_update_rejects_iff.
+
+(* whenever the generated update(modes, data) answers, its result is — weights and every stored entry — the hand model:
    the data vector is consumed left to right, R entries for the weights, shape[k] * R entries (column-major) for factor k.
-   Every ktz, any number of modes / components / data length *)
-Theorem C08_gen_update_model : forall (self k' : ktz) (modes data : vec), (forall k, In k modes -> -1 <= k) ->
+   Every ktz, any modes / components / data length (no hypothesis on the modes since b9311d6: modes below -1 are refused) *)
+Theorem C08_gen_update_model : forall (self k' : ktz) (modes data : vec),
   ktensor_update self modes data = Ok k' ->
   to_K k' = k_update 0 (map mopt modes) data (to_K self).
 Proof. exact gen_update_model. Qed.
 Print Assumptions C08_gen_update_model.
+
+(* all modes, weights first, exactly R * (sum(shape) + 1) numbers: the generated update ACCEPTS and is from_vector of the data *)
+Theorem C08_gen_update_all_modes_accepted : forall (self : ktz) (data : vec),
+  length data = (krank (to_K self) * (sum_nat (kshape (to_K self)) + 1))%nat ->
+  exists k', ktensor_update self (-1 :: np_arange 0 (zlen (kt_factors self))) data = Ok k' /\
+             to_K k' = k_from_vector 0 1 data (kshape (to_K self)) true.
+Proof. exact gen_update_all_modes_accepted. Qed.
+Print Assumptions C08_gen_update_all_modes_accepted.
 
 (* all modes, weights first: the generated update IS from_vector of the data (exact vector round trip on the generated code) *)
 Theorem C08_gen_update_all_modes : forall (self k' : ktz) (data : vec),
@@ -26,17 +54,21 @@ Proof. exact gen_update_all_modes. Qed.
 Print Assumptions C08_gen_update_all_modes.
 
 (* frame: weights / factors that are not named are untouched by the generated update *)
-Theorem C08_gen_update_frame : forall (self k' : ktz) (modes data : vec), (forall k, In k modes -> -1 <= k) ->
+Theorem C08_gen_update_frame : forall (self k' : ktz) (modes data : vec),
   ktensor_update self modes data = Ok k' ->
   (not (In (-1) modes) -> kt_weights k' = kt_weights self) /\
   (forall j : nat, not (In (Z.of_nat j) modes) -> nth j (kt_factors k') [] = nth j (kt_factors self) []).
 Proof. exact gen_update_frame. Qed.
 Print Assumptions C08_gen_update_frame.
 
-(* non-vacuity: 2 x 3 modes, two components; weights and factor 1 replaced, factor 0 kept; unsorted modes / short data refused *)
+(* non-vacuity: 2 x 3 modes, two components; weights and factor 1 replaced, factor 0 kept; unsorted / repeated modes, short data,
+   a mode that does not exist after a valid one, mode -2 refused *)
 Example C08_example_gen_update :
   let k := mkkt [1; 1] [[[0; 0]; [0; 0]]; [[0; 0]; [0; 0]; [0; 0]]] in
   ktensor_update k [-1; 1] [11; 12; 5; 6; 7; 8; 9; 10] = Ok (mkkt [11; 12] [[[0; 0]; [0; 0]]; [[5; 8]; [6; 9]; [7; 10]]]) /\
   ktensor_update k [1; -1] [5; 6; 7; 8; 9; 10; 11; 12] = Err /\
-  ktensor_update k [-1; 1] [11; 12; 5; 6; 7] = Err.
+  ktensor_update k [-1; 1] [11; 12; 5; 6; 7] = Err /\
+  ktensor_update k [0; 0] [1; 2; 3; 4; 5; 6; 7; 8] = Err /\
+  ktensor_update k [0; 5] [1; 2; 3; 4; 5; 6] = Err /\
+  ktensor_update k [-2] [1; 2; 3; 4] = Err.
 Proof. vm_compute. repeat split; reflexivity. Qed.
